@@ -90,6 +90,101 @@ pub fn longdrop(rounds: usize, len: usize) -> Result<Option<String>, String> {
     Err(format!("longdrop child failed: status {:?} {}", out.status, se.lines().take(5).collect::<Vec<_>>().join(" | ")))
 }
 
+
+/// Cold-start scenario (see c18_conc firstuse): `count` fresh processes, each given a different state
+/// (a generated game prefix, preferably ending with a push or pull pending). Returns the first
+/// difference found.
+pub fn cold_starts(cfg: &RunCfg, bin: &std::path::Path, count: usize, stats: &mut Stats) -> Result<Option<(String, Value)>, String> {
+    use crate::drive::{Obs, Profile, WalkOpts};
+    use crate::gen::{self, GameParams, Start};
+    use proptest::strategy::{Strategy, ValueTree};
+    use proptest::test_runner::TestRunner;
+    struct Nop;
+    impl Obs for Nop {}
+    let mut runner = TestRunner::new(proptest_config(1, shard_seed(cfg.seed, "C18-cold", 0, 0)));
+    let params = GameParams { max_ops: 30, w_setup: 0, w_pos: 4, w_small: 3, w_frozen: 0, hanging: false, w_motif: 2 };
+    let dir = target_dir().join("c18-cold");
+    let _ = std::fs::create_dir_all(&dir);
+    let mut jobs: Vec<(std::path::PathBuf, Value)> = vec![];
+    let mut tries = 0;
+    while jobs.len() < count && tries < count * 20 {
+        tries += 1;
+        let case = match gen::game(params).new_tree(&mut runner) {
+            Ok(t) => t.current(),
+            Err(_) => continue,
+        };
+        let p = match &case.start {
+            Start::Pos(p) => p.clone(),
+            _ => continue,
+        };
+        let mut st = Stats::default();
+        st.frozen = true;
+        let trace = match crate::drive::run_case(&case, &WalkOpts { profile: Profile::Fight, expand: None, follow_norep: false, inject: crate::drive::Inject::No }, &mut Nop, &mut st) {
+            Ok((_, t)) => t.actions,
+            Err(_) => continue,
+        };
+        // cut the game at the last state with a push or pull pending (replaying it on the model)
+        let mut mo = crate::model::Model::from_position(p.board, p.gold_to_move, p.move_number);
+        let mut best = 0usize;
+        for (i, a) in trace.iter().enumerate() {
+            if mo.apply(to_maction(a)).is_err() {
+                break;
+            }
+            if mo.status != crate::model::Status::None {
+                best = i + 1;
+            }
+        }
+        if best == 0 {
+            continue;
+        }
+        let j = json!({
+            "diagram": p.board.diagram_styled(p.move_number, p.gold_to_move, p.notation),
+            "actions": trace[..best].iter().map(action_text).collect::<Vec<_>>(),
+            "threads": 8,
+        });
+        let path = dir.join(format!("case-{}.json", jobs.len()));
+        std::fs::write(&path, serde_json::to_string(&j).unwrap()).map_err(|e| e.to_string())?;
+        jobs.push((path, j));
+    }
+    // fresh processes, a few at a time
+    let results: Vec<Result<Option<(String, Value)>, String>> = std::thread::scope(|sc| {
+        let chunks: Vec<Vec<(std::path::PathBuf, Value)>> = jobs.chunks((jobs.len() / 4).max(1)).map(|c| c.to_vec()).collect();
+        chunks
+            .into_iter()
+            .map(|chunk| {
+                sc.spawn(move || -> Result<Option<(String, Value)>, String> {
+                    for (path, j) in chunk {
+                        let mut c = Command::new(bin);
+                        c.arg("firstuse").arg(&path);
+                        let out = c.output().map_err(|e| e.to_string())?;
+                        match out.status.code() {
+                            Some(0) => {}
+                            Some(1) => return Ok(Some((String::from_utf8_lossy(&out.stdout).trim().to_string(), j))),
+                            other => return Err(format!("cold-start child ended with {:?}: {}", other, String::from_utf8_lossy(&out.stderr).lines().take(3).collect::<Vec<_>>().join(" | "))),
+                        }
+                    }
+                    Ok(None)
+                })
+            })
+            .collect::<Vec<_>>()
+            .into_iter()
+            .map(|h| h.join().unwrap_or_else(|_| Err("cold-start thread panicked".into())))
+            .collect()
+    });
+    stats.add("cold_start/fresh_processes", jobs.len() as u64);
+    if !stats.frozen {
+        stats.evaluations += jobs.len() as u64;
+    }
+    for r in results {
+        match r {
+            Ok(Some(x)) => return Ok(Some(x)),
+            Err(e) => return Err(e),
+            Ok(None) => {}
+        }
+    }
+    Ok(None)
+}
+
 pub fn run_c18(cfg: &RunCfg, stats: &mut Stats, extra: &mut Value) -> Outcome {
     // ---- type-level half
     match probe() {
@@ -143,6 +238,15 @@ pub fn run_c18(cfg: &RunCfg, stats: &mut Stats, extra: &mut Value) -> Outcome {
         }
         let f = Fail::new("C18:transcript", viol["detail"].as_str().unwrap_or("").to_string());
         return Outcome::Violation(Violation { replay: json!({"property": "C18", "kind": "concurrent", "clause": f.clause, "detail": f.detail, "case": viol["case"], "seed": cfg.seed, "note": "schedule dependent: the replay re-runs the program up to 200 times"}), fail: f });
+    }
+    // ---- cold start under contention (one-shot-per-process races: lazily built tables, caches)
+    match cold_starts(cfg, &bin, if cfg.thorough { 1500 } else { 160 }, stats) {
+        Err(e) => return Outcome::Inconclusive(e),
+        Ok(Some((msg, case))) => {
+            let f = Fail::new("C18:cold_start", msg);
+            return Outcome::Violation(Violation { replay: json!({"property": "C18", "kind": "cold_start", "clause": f.clause, "detail": f.detail, "case": case, "note": "schedule dependent: the replay starts up to 300 fresh processes"}), fail: f });
+        }
+        Ok(None) => {}
     }
     // ---- racing release of a long shared history
     let (rounds, len) = if cfg.thorough { (80_000usize, 30_000usize) } else { (6_000usize, 30_000usize) };
@@ -218,6 +322,20 @@ pub fn replay_c18(v: &Value) -> Result<Option<Fail>, String> {
             } else {
                 Err(format!("c18_conc replay exited with {}", code))
             }
+        }
+        Some("cold_start") => {
+            let bin = build_conc(false)?;
+            let path = target_dir().join("c18-cold-replay.json");
+            std::fs::write(&path, serde_json::to_string(&v["case"]).unwrap()).map_err(|e| e.to_string())?;
+            for _ in 0..300 {
+                let mut c = Command::new(&bin);
+                c.arg("firstuse").arg(&path);
+                let out = c.output().map_err(|e| e.to_string())?;
+                if out.status.code() == Some(1) {
+                    return Ok(Some(Fail::new("C18:cold_start", String::from_utf8_lossy(&out.stdout).trim().to_string())));
+                }
+            }
+            Ok(None)
         }
         Some("longdrop") => match longdrop(v["rounds"].as_u64().unwrap_or(1000) as usize, v["len"].as_u64().unwrap_or(400_000) as usize)? {
             None => Ok(None),
